@@ -91,4 +91,73 @@ def _mk(n):
 
 init1, init2, init4 = _mk(1), _mk(2), _mk(4)
 
-CONTRACTS = [init1, init2, init4]
+
+# --- _encode / _decode for an arbitrary 2-symbol alphabet and an arbitrary byte array ------------------------------------------------
+def _setup_encode(ctx):
+    st = _setup(2)(ctx)
+    st.m = z3.Int("n_bytes")
+    st.b = z3.Function("byte", z3.IntSort(), z3.IntSort())
+    st.args = [SArr.fresh(st.m, lambda i: st.b(I(i)))]
+    return st
+
+
+def _req_encode(ctx, st):
+    return _req(ctx, st) + [st.m >= 0, Forall(lambda i: And(st.b(i) >= 0, st.b(i) < 256), triggers=[st.b], name="bytes")]
+
+
+def _ens_encode(ctx, st, ret):
+    return [("length", ret.length == st.m),
+            ("accepted only if every byte is in the alphabet; the code is the symbol's index",
+             Forall(lambda i: Implies(in_range(i, st.m), And(spec_lookup(st, st.b(i)) != 255, ret.at(i) == spec_lookup(st, st.b(i))))))]
+
+
+def _raise_encode(ctx, st):
+    r, w = ctx.ghost["any_witness"][-1]
+    return [("raises.only.for.a.foreign.byte", And(in_range(w, st.m), spec_lookup(st, st.b(w)) == 255))]
+
+
+def _initialize_contract(holder):
+    """callee contract of _initialize (proved above for any alphabet): after it, _lookup is the spec table and _alphabet the symbols"""
+    def handler(ip, args, kwargs, lineno):
+        st = holder["st"]
+        selfv = args[0]
+        selfv.set("_lookup", SArr.fresh(256, lambda b: spec_lookup(st, b)))
+        selfv.set("_alphabet", SArr.fresh(st.n, lambda k: Ite(I(k) == 0, st.A[0], st.A[1])))
+        selfv.set("_is_initialized", True)
+        return None
+    return handler
+
+
+_he = {}
+
+
+def _wrap_setup(f):
+    def setup(ctx):
+        st = f(ctx)
+        _he["st"] = st
+        return st
+    return setup
+
+
+INIT_CALLEE = {"bionumpy.encodings.alphabet_encoding.AlphabetEncoding._initialize": _initialize_contract(_he)}
+
+encode2 = Contract("C06.AlphabetEncoding._encode[2 symbolic symbols]", target=lambda: _A()._encode, setup=_wrap_setup(_setup_encode), requires=_req_encode, callees=INIT_CALLEE,
+                   ensures=_ens_encode, raises={"EncodingError": _raise_encode}, dropped=["exception message construction (its value is not used)"],
+                   canaries=[("last position unchecked", "if np.any(ret >= self._alphabet_size):", "if np.any(ret[:-1] >= self._alphabet_size):"),
+                             ("threshold off by one", "ret >= self._alphabet_size", "ret > self._alphabet_size + 253")])
+
+
+def _setup_decode(ctx):
+    st = _setup(2)(ctx)
+    st.m = z3.Int("n_codes")
+    st.c = z3.Function("code", z3.IntSort(), z3.IntSort())
+    st.args = [SArr.fresh(st.m, lambda i: st.c(I(i)))]
+    return st
+
+
+decode2 = Contract("C06.AlphabetEncoding._decode[2 symbolic symbols]", target=lambda: _A()._decode, setup=_wrap_setup(_setup_decode), callees=INIT_CALLEE,
+                   requires=lambda ctx, st: _req(ctx, st) + [st.m >= 0, Forall(lambda i: Implies(in_range(i, st.m), in_range(st.c(i), 2)), triggers=[st.c], name="valid codes")],
+                   ensures=lambda ctx, st, ret: [("decode.is.the.alphabet.symbol", Forall(lambda i: Implies(in_range(i, st.m), ret.at(i) == Ite(st.c(i) == 0, st.A[0], st.A[1]))))],
+                   canaries=[("lookup instead of alphabet", "return self._alphabet[array]", "return self._lookup[array]")])
+
+CONTRACTS = [init1, init2, init4, encode2, decode2]
